@@ -7,6 +7,7 @@ import Pastel.Model.DeltaE
 import Pastel.Wire
 import Pastel.Model.Distinct
 import Pastel.Model.SetCmd
+import Pastel.Model.Scale
 
 namespace Pastel
 open Wire
@@ -16,6 +17,7 @@ structure OpState where
   drLabs : List (Lab3 Float) := []
   drMetric : Metric := .cie76
   drRes : Option (DistanceResult Float) := none
+  scale : List (Stop Float (Color Float)) := []
 
 /-- `f64::MAX`. -/
 def f64Max : Float := Float.ofBits 0x7fefffffffffffff
@@ -246,8 +248,30 @@ def opSet (args : List String) : String :=
     | _, _, _ => bad
   | _ => bad
 
+def opScale (st : OpState) (args : List String) : OpState × String :=
+  match args with
+  | ["new"] => ({ st with scale := [] }, "ok")
+  | "add" :: p :: rest =>
+    match parseF p, parseC rest with
+    | some p, some (c, []) => ({ st with scale := addStop st.scale c (fraction p) }, "ok")
+    | _, _ => (st, bad)
+  | ["dump"] =>
+    let items := st.scale.map fun s =>
+      let q := toRgba8 s.1
+      s!"{showF s.2} {q.r.toNat} {q.g.toNat} {q.b.toNat}"
+    (st, s!"ok {st.scale.length}" ++ (if items.isEmpty then "" else " " ++ " ".intercalate items))
+  | ["sample", p, sp] =>
+    match parseF p, spaceOf sp with
+    | some p, some sp =>
+      match sampleScale st.scale (fraction p) (fun a b f => mix sp a b f) with
+      | none => (st, "none")
+      | some c => (st, "ok " ++ showC c)
+    | _, _ => (st, bad)
+  | _ => (st, bad)
+
 def runOp (st : OpState) (toks : List String) : OpState × String :=
   match toks with
+  | "scale" :: args => opScale st args
   | "dr" :: args => opDr st args
   | "sa" :: args => (st, opSa args)
   | "rearr" :: args => (st, opRearr args)
